@@ -97,6 +97,8 @@ def main(argv):
                 ob.name = '%s [%s]' % (ob.name, bname)
             ob.logic = getattr(D, 'smt_logic', 'ALL')
             ob.portfolio = getattr(D, 'portfolio', False)
+            ob.hermetic = getattr(D, 'hermetic', False)
+            ob.slice_prefixes = getattr(D, 'slice_prefixes', ())
         all_obls += eng.obls
         functions.update({'%s [%s]' % (q, bname): v for q, v in eng.functions_run.items()})
         unsupported += [(bname,) + u for u in eng.unsupported]
@@ -229,6 +231,9 @@ def decide(pid, tier, seed, t0, cfg, claimed, deps, functions, unsupported, assu
     for key, (k, w) in kf_used.items():
         if w and w[0]:
             lines.append('KNOWN-FINDING: property=%s %s [%s]' % (pid, k['what'], key))
+    for ob in claimed:
+        if (ob.result or {}).get('disagreement'):
+            guard.append('two solver runs gave different definite answers on %s: %s' % (ob.name, ob.result['disagreement']))
     for ob in covers:
         if not ok(ob):
             guard.append('cover failed (vacuity guard): %s -> %s' % (ob.name, ob.result['status']))
